@@ -45,6 +45,16 @@ const (
 	WriteCoilValueOff uint16 = 0
 )
 
+// quantity limits of the Modbus application protocol (V1.1b3, section 6):
+// a request with a quantity of 0 or above the limit is answered with
+// exception 3 (illegal data value).
+const (
+	maxReadBits  = 2000 // 0x7D0, function codes 1 and 2
+	maxReadRegs  = 125  // 0x7D, function codes 3 and 4
+	maxWriteBits = 1968 // 0x7B0, function code 15
+	maxWriteRegs = 123  // 0x7B, function code 16
+)
+
 // minRequestLen is the minimum number of PDU bytes for a request with
 // the given function code (not including slave address or checksum,
 // which are part of the ADU).
